@@ -277,6 +277,57 @@ def find_word_in_line(line: str, word: str) -> Range:
     return Range(i, i + len(word))
 
 
+def read_parameter_value(string: str) -> str | None:
+    """Read the initialisation expression that follows an entity name in a
+    declaration, up to the next entity (top-level comma) or trailing comment
+
+    Parameters
+    ----------
+    string : str
+        The declaration text right after the entity name
+
+    Examples
+    --------
+    >>> read_parameter_value(" = (1.0, 2.0), b = 3")
+    '(1.0, 2.0)'
+
+    >>> read_parameter_value("*20 = 'a, b' ! doc")
+    "'a, b'"
+
+    >>> read_parameter_value("(2) = [1, 2]")
+    '[1, 2]'
+
+    >>> read_parameter_value(", b") is None
+    True
+    """
+    level = 0
+    quote = None
+    start = -1
+    for i, char in enumerate(string):
+        if quote is not None:
+            if char == quote:
+                quote = None
+        elif char in ("'", '"'):
+            quote = char
+        elif char in "([":
+            level += 1
+        elif char in ")]":
+            level -= 1
+            if level < 0:
+                break
+        elif level == 0 and char in ",!":
+            if start < 0:
+                return None
+            return " ".join(string[start:i].replace("&", " ").split())
+        elif level == 0 and char == "=" and start < 0:
+            if string[i + 1 : i + 2] == ">":
+                return None
+            start = i + 1
+    if start < 0:
+        return None
+    return " ".join(string[start:].replace("&", " ").split())
+
+
 def find_paren_match(string: str) -> int:
     """Find matching closing parenthesis from an already open parenthesis scope
     by forward search of the string, returns -1 if no match is found
